@@ -185,7 +185,7 @@ func aggBattery(c *Ctx, a *aggMembers, valueSemantics bool) {
 		c.Eval(1)
 		return true
 	}
-	workersAll := []int{0, 1, 2, 3, 4, 7, 16, 33}
+	workersAll := []int{0, 1, 2, 3, 4, 7, 16, 33, 64}
 	for _, fn := range aggFuncs {
 		if c.Failed() {
 			return
@@ -200,7 +200,21 @@ func aggBattery(c *Ctx, a *aggMembers, valueSemantics bool) {
 			arg := append([]*roaring.Bitmap(nil), a.list...)
 			c.Step("%s(workers=%d) over %d members", fn, w, len(arg))
 			var res *roaring.Bitmap
-			if c.Guard(fn, func() { res = aggCall(fn, w, arg) }) {
+			if isPar(fn) {
+				verdict, detail, pv := callWithWatchdog(func() { res = aggCall(fn, w, arg) })
+				if verdict == "deadlock" {
+					c.Fail(fn+"/deadlock", "%s(workers=%d) never returned: all its goroutines are parked on channel operations:\n%s", fn, w, detail)
+					return
+				}
+				if verdict != "ok" {
+					c.Note("watchdog fired without confirmation in " + fn)
+					return
+				}
+				if pv != nil {
+					c.Fail(fn+"/panic", "%s(workers=%d) panicked: %v", fn, w, pv)
+					return
+				}
+			} else if c.Guard(fn, func() { res = aggCall(fn, w, arg) }) {
 				return
 			}
 			c.Count("agg_" + fn)
